@@ -178,10 +178,10 @@ impl PairHMM {
                     let prob_match_mismatch = emit_xy.prob()
                         + ln_sum3_exp_approx(
                             self.gap_params.prob_no_gap + fm_prev[j_minus_one],
-                            // coming from state X
-                            self.gap_params.prob_no_gap_x_extend + fx_prev[j_minus_one],
-                            // coming from state Y
-                            self.gap_params.prob_no_gap_y_extend + fy_prev[j_minus_one],
+                            // coming from state X (gap in y)
+                            self.gap_params.prob_no_gap_y_extend + fx_prev[j_minus_one],
+                            // coming from state Y (gap in x)
+                            self.gap_params.prob_no_gap_x_extend + fy_prev[j_minus_one],
                         );
 
                     // gap in y
